@@ -25,7 +25,7 @@ def main():
             "psutil not imported from the stage: %s" % psutil.__file__
     from vf.harness import Ctx
     ctx = Ctx(a.tier, a.seed)
-    ALT = "/hostproc"
+    ALT = "/hostproc/"       # (with a trailing slash: psutil then builds paths with a doubled one, which the kernel accepts)
     ALT_TCK = "1024"        # (Linux/alpha's USER_HZ: ten ticks per 1/100 s, and not a divisor of anything decimal)
 
     def alt_on():
